@@ -172,4 +172,49 @@ theorem C05_oneUnsew3_cells (cfg : Cfg X) (n : Nat) (m m' : Map X) (l : Nat) (u 
       sold.unique hu (sold.ne_zero hwf hne ir.1) (by omega)
     exact ⟨hh, vl, vr, sl, sr, hc', hold, hsplit⟩
 
+
+/-! ## non-vacuity: the configuration of the former defect D13 -/
+
+/-- three triangles 1-2-3, 4-5-6, 7-8-9; vertices of the first one and of dart 4 embedded -/
+def exBase : Map Val :=
+  { (Map.empty 4 6 10 : Map Val) with
+    b := #[#[0, 3, 1, 2, 6, 4, 5, 9, 7, 8], #[0, 2, 3, 1, 5, 6, 4, 8, 9, 7],
+           Array.replicate 10 0, Array.replicate 10 0]
+    a := #[#[none, some (.pt 1 0 0), some (.pt 0 1 0), some (.pt 0 0 1), some (.pt 2 0 0), none, none, none,
+             none, none],
+           #[none, some (.tm (.leaf 11)), none, none, none, none, none, none, none, none, none],
+           Array.replicate 11 none, Array.replicate 11 none, Array.replicate 11 none, Array.replicate 11 none] }
+
+/-- … the second and third 3-linked along `(4, 7)`, the third 2-linked to the first along `(9, 1)`:
+    the vertex of dart 1 is `{1, 5, 7}` and has a boundary -/
+def exGlued : Map Val := (run (iLinkCore 2 9 1) (run (threeLink3 10 4 7) exBase).2).2
+
+/-- … and dart 4 1-unsewn: its 3-sewn face is open, the vertex of dart 1 is `{1, 5}` -/
+def exOpened : Map Val := (run (oneUnsew3 C02.exCfg 10 4) exGlued).2
+
+example : WF 4 exGlued ∧ Mirror exGlued ∧ exGlued.β 3 4 = 7 ∧ exGlued.β 2 9 = 1 := by decide +kernel
+example : (run (oneUnsew3 C02.exCfg 10 4) exGlued).1 = .ok () := by decide +kernel
+/-- the vertex ids on the opened face are the smallest darts of the cells (D13: `vid 5` was 5) -/
+example : (run (vertexId3 10 5) exOpened).1 = .ok 1 ∧ (run (vertexId3 10 7) exOpened).1 = .ok 7 := by
+  decide +kernel
+example : IsVid3 exOpened 5 1 :=
+  C05_vertexId3_is_cell_min (m' := exOpened) (n' := 10) (by decide +kernel) (by decide) (by decide +kernel)
+    (Prod.ext (by decide +kernel : (run (vertexId3 10 5) exOpened).1 = .ok 1)
+      ((readOnly_vertexId3 10 5).run_ok (Prod.ext rfl rfl)))
+/-- the vertex `{1, 5}` keeps its coordinates under its identifier 1, the split-off vertex `{7}` gets
+    its half (before the repair: `rv 1 = none`, the value parked under 5) -/
+example : exOpened.att 0 1 = some (.pt 1 0 0) ∧ exOpened.att 0 7 = some (.pt 1 0 0) ∧ exOpened.att 0 5 = none ∧
+    exOpened.att 1 1 = some (.tm (.spr (.leaf 11))) ∧ exOpened.att 1 7 = some (.tm (.spl (.leaf 11))) := by
+  decide +kernel
+/-- the hypotheses of the two cell-level theorems are satisfiable -/
+example := C05_oneUnsew3_cells C02.exCfg 10 exGlued exOpened 4 () (by decide +kernel) (by decide +kernel) rfl
+  (Prod.ext (by decide +kernel : (run (oneUnsew3 C02.exCfg 10 4) exGlued).1 = .ok ()) rfl)
+example : (run (oneSew3 C02.exCfg 10 4 5) exOpened).1 = .ok () := by decide +kernel
+example := C05_oneSew3_cells C02.exCfg 10 exOpened (run (oneSew3 C02.exCfg 10 4 5) exOpened).2 4 5 ()
+  (by decide +kernel) (by decide +kernel) (by decide +kernel) (by decide +kernel)
+  (Prod.ext (by decide +kernel : (run (oneSew3 C02.exCfg 10 4 5) exOpened).1 = .ok ()) rfl)
+/-- … and the 1-sew back merges the two halves into the identifier of the united vertex -/
+example : (run (oneSew3 C02.exCfg 10 4 5) exOpened).2.att 0 1 = some (.pt 1 0 0) ∧
+    (run (oneSew3 C02.exCfg 10 4 5) exOpened).2.att 0 7 = none ∧ headOf exOpened 4 = 7 := by decide +kernel
+
 end HC.C05
